@@ -784,7 +784,7 @@ class Conv(Module):
     kernel = self.kernel.value
 
     if self.mask is not None:
-      kernel *= self.mask
+      kernel = kernel * self.mask  # (not in place: the kernel may be the caller's array)
 
     bias = self.bias.value if self.bias is not None else None
 
@@ -1008,7 +1008,7 @@ class ConvTranspose(Module):
     kernel = self.kernel.value
 
     if self.mask is not None:
-      kernel *= self.mask
+      kernel = kernel * self.mask  # (not in place: the kernel may be the caller's array)
 
     padding_lax = canonicalize_padding(self.padding, len(kernel_size))
     if padding_lax == 'CIRCULAR':
